@@ -194,8 +194,11 @@ def main(argv):
                 if d.func in kf_funcs and diag_relevant(unit, d, prop, extracted) and not known_match(known, prop, u, d):
                     kf_funcs.discard(d.func)
             # obligations = Verus verification items (functions, lemmas) mapped to this property
+            vmap = {}
+            for f_ in g.functions:
+                vmap.setdefault(f_.get("verus_name", f_["name"]), f_["name"])
             for vname, info in sorted(res.functions.items()):
-                qual = vname
+                qual = vmap.get(vname, vname)
                 props, panic = fn_tags(unit, qual, extracted)
                 if prop not in (props | panic):
                     continue
